@@ -122,6 +122,18 @@ void cmb_event_queue_terminate(void)
     sim_time = 0.0;
 }
 
+#ifdef CIMBA_VERIF
+/*
+ * cmi_verif_event_queue - Verification hook (read-only accessor): the calling
+ * thread's event queue, for exact-state comparison against the formal model.
+ */
+struct cmi_hashheap *cmi_verif_event_queue(void);
+struct cmi_hashheap *cmi_verif_event_queue(void)
+{
+    return event_queue;
+}
+#endif /* CIMBA_VERIF */
+
 /*
  * cmb_event_queue_clear - Clean up, deallocating space.
  */
